@@ -11,6 +11,7 @@ import (
 	bitcoin_reader "github.com/tokenized/bitcoin_reader"
 	"github.com/tokenized/bitcoin_reader/headers"
 	"github.com/tokenized/pkg/bitcoin"
+	"github.com/tokenized/pkg/merkle_proof"
 	"github.com/tokenized/pkg/wire"
 )
 
@@ -44,7 +45,7 @@ func (c nodeConfig) name() string {
 func blockBytes(b *testBlock) []byte {
 	buf := &bytes.Buffer{}
 	b.header.Serialize(buf)
-	buf.WriteByte(byte(len(b.txs)))
+	wire.WriteVarInt(buf, 0, uint64(len(b.txs)))
 	for _, tx := range b.txs {
 		tx.Serialize(buf)
 	}
@@ -57,7 +58,16 @@ func nodeScenario(c nodeConfig) func() func() []string {
 		if c.deliver == "ok1" {
 			blk = mkBlock(1, 1)
 		}
+		if c.deliver == "big-ok" || c.deliver == "big-processor-error" {
+			// more transactions than the hand-over channel between the node and the downloader
+			// holds (1000): whoever stops reading early must keep the sender going
+			blk = mkBigBlock(1, 1100)
+		}
 		other := mkBlock(2, 1)
+		if c.deliver == "big-wrong" {
+			blk = mkBlock(1, 1)
+			other = mkBigBlock(2, 1100) // the peer answers with another, large, block
+		}
 		store := vstore.New()
 		repo := headers.NewRepository(headers.DefaultConfig(), store)
 		repo.InitializeWithGenesis()
@@ -68,7 +78,7 @@ func nodeScenario(c nodeConfig) func() func() []string {
 		nodeInterrupt := make(chan interface{})
 		node.VerifSetInterrupt(nodeInterrupt)
 
-		proc := &recProc{}
+		proc := &recProc{failTx: c.deliver == "big-processor-error"}
 		rstore := &recStore{}
 		bd := bitcoin_reader.NewBlockDownloader(proc, rstore, blk.hash, 100)
 		if err := node.RequestBlock(bg, blk.hash, bd.HandleBlock, bd.Stop); err != nil {
@@ -90,7 +100,7 @@ func nodeScenario(c nodeConfig) func() func() []string {
 			vsched.GoNamed("peer", func() {
 				payload := blockBytes(blk)
 				switch c.deliver {
-				case "wrong":
+				case "wrong", "big-wrong":
 					payload = blockBytes(other)
 				case "truncated":
 					payload = payload[:len(payload)-10]
@@ -151,6 +161,14 @@ func nodeScenarios(thorough bool) []*scenario {
 	if thorough {
 		delivers = append(delivers, "ok2")
 	}
+	// blocks larger than the hand-over channel (sequential default schedule and one preemption:
+	// ~2500 scheduling points per execution)
+	for _, d := range []string{"big-ok", "big-processor-error", "big-wrong"} {
+		for _, cancel := range []bool{false, true} {
+			c := nodeConfig{deliver: d, cancel: cancel}
+			r = append(r, &scenario{name: c.name(), bounds: []int{0}, body: nodeScenario(c), steps: 200000})
+		}
+	}
 	for _, d := range delivers {
 		for mask := 0; mask < 8; mask++ {
 			c := nodeConfig{deliver: d, cancel: mask&1 != 0, stop: mask&2 != 0, interrupt: mask&4 != 0}
@@ -178,3 +196,23 @@ func nodeScenarios(thorough bool) []*scenario {
 }
 
 var _ = bitcoin.Hash32{}
+
+var bigBlocks = map[int]*testBlock{}
+
+// mkBigBlock is mkBlock for many transactions (built once per process).
+func mkBigBlock(n, k int) *testBlock {
+	if b, ok := bigBlocks[n*100000+k]; ok {
+		return b
+	}
+	b := &testBlock{}
+	tree := merkle_proof.NewMerkleTree(true)
+	for i := 0; i < k; i++ {
+		tx := mkTx(50000 + n*16 + i)
+		b.txs = append(b.txs, tx)
+		tree.AddHash(*tx.TxHash())
+	}
+	b.header = &wire.BlockHeader{Version: 1, Timestamp: 1600000000 + uint32(n), Bits: 0x1d00ffff, Nonce: uint32(n), MerkleRoot: tree.RootHash()}
+	b.hash = *b.header.BlockHash()
+	bigBlocks[n*100000+k] = b
+	return b
+}
